@@ -109,13 +109,18 @@ package xlsx
 //@   loop 7:
 //@     invariant same(sheet.Name, name) && sheet.Index == index && sheet.MaxRow == maxRow - 1 && sheet.MaxCol == maxCol && len(sheet.Rows) == maxRow
 //@     invariant forall k int :: {sheet.Rows[k]} 0 <= k && k < len(sheet.Rows) ==> len(sheet.Rows[k]) == maxCol + 1
+// (C02) the merge pass is charged to a budget: each region pays for the part of the grid it covers (its rectangle
+// clipped to the grid) before its cells are visited, and the two inner loops stay inside that rectangle
+//@     invariant merge_budget_never_overdrawn: 0 <= mergeBudget && mergeBudget <= maxSheetCells
 //@   loop 8:
 //@     invariant same(sheet.Name, name) && sheet.Index == index && sheet.MaxRow == maxRow - 1 && sheet.MaxCol == maxCol && len(sheet.Rows) == maxRow
 //@     invariant forall k int :: {sheet.Rows[k]} 0 <= k && k < len(sheet.Rows) ==> len(sheet.Rows[k]) == maxCol + 1
+//@     invariant rows_inside_the_charged_rectangle: mr.StartRow <= row && row <= endRow + 1 && covered == (endRow - mr.StartRow + 1) * (endCol - mr.StartCol + 1) && endRow == (mr.EndRow >= len(sheet.Rows) ? len(sheet.Rows) - 1 : mr.EndRow) && endCol == (mr.EndCol > maxCol ? maxCol : mr.EndCol)
 //@     decreases len(sheet.Rows) - row
 //@   loop 9:
 //@     invariant same(sheet.Name, name) && sheet.Index == index && sheet.MaxRow == maxRow - 1 && sheet.MaxCol == maxCol && len(sheet.Rows) == maxRow
 //@     invariant forall k int :: {sheet.Rows[k]} 0 <= k && k < len(sheet.Rows) ==> len(sheet.Rows[k]) == maxCol + 1
+//@     invariant columns_inside_the_charged_rectangle: mr.StartCol <= col && col <= endCol + 1 && endCol == (mr.EndCol > maxCol ? maxCol : mr.EndCol)
 //@     decreases maxCol + 1 - col
 //@     step covered_cell_is_marked_merged: sheet.Rows[row][prev(col)].IsMerged
 //@     step top_left_is_the_root: row == mr.StartRow && prev(col) == mr.StartCol ==> sheet.Rows[row][prev(col)].IsMergeRoot && sheet.Rows[row][prev(col)].MergeRows == mr.EndRow - mr.StartRow + 1 && sheet.Rows[row][prev(col)].MergeCols == mr.EndCol - mr.StartCol + 1
